@@ -18,6 +18,44 @@ def canon_digits(s):
     return re.sub(r"(?<=/ipykernel_)([0-9]*)(?=/)", "", s)
 
 
+def key_pair_fails(rng, n):
+    """different calls never share a cache key (real serialize_funct_h5): functions that differ only in
+    their body, their closure or a default value — same module, even the same qualified name —
+    arguments, keyword arguments, resources"""
+    fails = []
+    ser = importlib.import_module("executorlib.standalone.serialize")
+
+    def fa(x):
+        return x
+
+    def fb(x):
+        return x
+    fb.__name__ = "fa"
+
+    def make(k):
+        def inner(x):
+            return x + k
+        return inner
+    g1, g2 = make(1), make(2)           # same module and qualified name, different closure: different calls
+    l1, l2 = [lambda x, c=c: (x, c) for c in (10, 20)]      # two lambdas from one source line
+    keys = {}
+    for _ in range(n):
+        fn = rng.choice([fa, fa, fb, g1, g2, l1, l2])
+        arg = rng.choice([rng.randint(0, 3), "".join(rng.choice(TOKENS + ["\n"]) for _ in range(rng.randint(0, 6)))])
+        kw = rng.choice([{}, {}, {"k": rng.randint(0, 1)}])
+        rd = rng.choice([{}, {}, {"cores": rng.randint(1, 2)}])
+        k = ser.serialize_funct_h5(fn, [arg], kw, rd)[0]
+        ident = (id(fn), canon_digits(arg) if isinstance(arg, str) else arg, tuple(sorted(kw.items())), tuple(sorted(rd.items())))
+        if k in keys and keys[k] != ident:
+            names = {id(fa): "fa", id(fb): "fb (named fa)", id(g1): "make(1)", id(g2): "make(2)", id(l1): "lambda c=10", id(l2): "lambda c=20"}
+            show = lambda t: (names.get(t[0], t[0]),) + t[1:]  # noqa
+            fails.append({"why": "two different calls share the cache key %s: %r and %r (function, argument, kwargs, resources)" % (
+                k, show(keys[k]), show(ident))})
+            break
+        keys[k] = ident
+    return fails, fa
+
+
 def extra(res, hits):
     rng = res.rng
     fails = []
@@ -36,27 +74,9 @@ def extra(res, hits):
         res.cov["normaliser_diff_cases"] = len(strs)
         if bad:
             fails.append({"why": "Model/Blank.v disagrees with re.sub on %r: %r" % bad[0], "tie": True})
-    # key-level: different calls never share a key (real serialize_funct_h5)
+    kf, fa = key_pair_fails(rng, n)
+    fails += kf
     ser = importlib.import_module("executorlib.standalone.serialize")
-
-    def fa(x):
-        return x
-
-    def fb(x):
-        return x
-    fb.__name__ = "fa"
-    keys = {}
-    for _ in range(n):
-        fn = rng.choice([fa, fa, fb])
-        arg = rng.choice([rng.randint(0, 3), "".join(rng.choice(TOKENS + ["\n"]) for _ in range(rng.randint(0, 6)))])
-        kw = rng.choice([{}, {}, {"k": rng.randint(0, 1)}])
-        rd = rng.choice([{}, {}, {"cores": rng.randint(1, 2)}])
-        k = ser.serialize_funct_h5(fn, [arg], kw, rd)[0]
-        ident = (id(fn), canon_digits(arg) if isinstance(arg, str) else arg, tuple(sorted(kw.items())), tuple(sorted(rd.items())))
-        if k in keys and keys[k] != ident:
-            fails.append({"why": "two different calls share the cache key %s: %r and %r" % (k, keys[k], ident)})
-            break
-        keys[k] = ident
     res.cov["key_pair_cases"] = n
     # D9: what the interactive cache hashes does not contain the call's resources
     import inspect
